@@ -3,7 +3,7 @@
     read, arguments) to (new events, assigned attributes)), equal the hand-written state-machine model of
     Model/Events.v for every state and every argument. *)
 From Coq Require Import ZArith Bool List Lia.
-From NS Require Import Model.Events Gen.TrS.
+From NS Require Import Base.TrTac Model.Events Gen.TrS.
 Import ListNotations.
 Local Open Scope Z_scope.
 
@@ -15,7 +15,7 @@ Section Base.
   Lemma trs_append_eq (s : st Z) (e : Z) :
     trs_append (events s) (stop s) e =
     Some (events (fst (bappend s e)), stop (fst (bappend s e))).
-  Proof. reflexivity. Qed.
+  Proof. first [ reflexivity | unfold trs_append, bappend, append; cbn [events stop start fst]; tr_solve ]. Qed.
 
   Lemma trs_append_frame (s : st Z) (e : Z) :
     let s' := fst (bappend s e) in
@@ -27,8 +27,8 @@ Section Base.
     Some (events (bset s n fl), stop (bset s n fl), start (bset s n fl)).
   Proof.
     unfold trs_set_length, bset, base_set_length.
-    rewrite Z.gtb_ltb.
-    destruct (zlen (events s) <? n), fl; reflexivity.
+    first [ solve [ rewrite Z.gtb_ltb; destruct (zlen (events s) <? n), fl; reflexivity ]
+          | destruct fl; cbn [events stop start]; tr_solve ].
   Qed.
 
   Lemma trs_set_length_frame (s : st Z) (n : Z) (fl : bool) :
